@@ -204,6 +204,7 @@ def run(ctx):
     _switch_rules(ctx)
     _condition_rules(ctx)
     _size_types(ctx)
+    _loop_control(ctx)
 
 
 def _promo_rules(ctx):
@@ -400,6 +401,111 @@ def _size_types(ctx):
         uns = name.startswith("U")
         ok = ("uint_types[" in t) if (uns and "[" in t) else ("int_types[" in t and "uint_types[" not in t) if "[" in t else (t.startswith("ir.u") == uns)
         ctx.ob("C01.R7", "ppci/lang/c/codegenerator.py:CCodeGenerator.__init__", "BasicType.%s takes an %s IR type" % (name, "unsigned" if uns else "signed"), ok, construct="signedness:" + name, detail=t)
+
+
+CG = "ppci/lang/c/codegenerator.py"
+
+
+def _loop_events(fn):
+    """straight-line walk of a loop lowering: (kind, current block, arguments, node); the current block is the last
+    set_block argument, unknown ("?") after a nested statement was generated (it may have opened blocks of its own)"""
+    ev = []
+    def walk(body, cur):
+        for st in body:
+            if isinstance(st, ast.If):
+                a = walk(st.body, cur)
+                b = walk(st.orelse, cur)
+                cur = a if a == b else "?"
+                continue
+            calls = [c for c in ast.walk(st) if isinstance(c, ast.Call)]
+            for c in calls:
+                f = norm(c.func)
+                args = [norm(a) for a in c.args]
+                if f == "self.builder.set_block" and args:
+                    ev.append(("set", cur, args, c))
+                    cur = args[0]
+                elif f == "self.builder.emit_jump" and args:
+                    ev.append(("jump", cur, args, c))
+                elif f == "self.gen_condition" and len(args) == 3:
+                    ev.append(("cond", cur, args, c))
+                elif f == "self.gen_stmt" and args:
+                    ev.append(("stmt", cur, args, c))
+                    cur = "?"
+                elif f in ("self.gen_expr", "self.gen_local_variable") and args:
+                    ev.append(("expr", cur, args, c))
+                elif f in ("self.break_block_stack.append", "self.continue_block_stack.append") and args:
+                    ev.append(("push-" + f.split(".")[1].split("_")[0], cur, args, c))
+                elif f in ("self.break_block_stack.pop", "self.continue_block_stack.pop"):
+                    ev.append(("pop-" + f.split(".")[1].split("_")[0], cur, args, c))
+        return cur
+    walk(fn.body, "<entry>")
+    return ev
+
+
+def _loop_control(ctx):
+    ctx.rule("C01.R8", "loops: `continue` goes to the block in which the loop's next step is generated (the condition of while / do-while, the iteration expression of for), `break` to the block the code after the loop continues in, which is also the false target of the condition; the body is generated in the condition's true target and falls through to the next step; targets are pushed before the body and popped after it", floor=30)
+    for q, step in (("CCodeGenerator.gen_while", "stmt.condition"), ("CCodeGenerator.gen_do_while", "stmt.condition"), ("CCodeGenerator.gen_for", "stmt.post")):
+        fn = ctx.fn(CG, q)
+        site = CG + ":" + q
+        ev = _loop_events(fn)
+        fresh = {norm(n.targets[0]) for n in ast.walk(fn) if isinstance(n, ast.Assign) and isinstance(n.value, ast.Call) and norm(n.value.func) == "self.builder.new_block" and isinstance(n.targets[0], ast.Name)}
+        idx = {k: [i for i, e in enumerate(ev) if e[0] == k] for k in ("set", "jump", "cond", "stmt", "expr", "push-break", "push-continue", "pop-break", "pop-continue")}
+        body = [i for i in idx["stmt"] if ev[i][2][0] == "stmt.body"]
+        cond = [i for i in idx["cond"] if ev[i][2][0] == "stmt.condition"]
+        ctx.need(len(body) == 1 and len(cond) == 1, "%s: generation of the body / the condition not found" % q)
+        bi, ci = body[0], cond[0]
+        if step == "stmt.post":
+            st = [i for i in idx["expr"] if ev[i][2][0] == "stmt.post"]
+            ctx.need(len(st) == 1, "%s: generation of the iteration expression not found" % q)
+            si = st[0]
+        else:
+            si = ci
+        pc, pb = idx["push-continue"], idx["push-break"]
+        ok = len(pc) == 1 and len(pb) == 1 and ev[pc[0]][2][0] in fresh and ev[pb[0]][2][0] in fresh and ev[pc[0]][2][0] != ev[pb[0]][2][0]
+        ctx.ob("C01.R8", site, "one fresh block each is pushed as the continue and as the break target", ok, construct="targets-pushed")
+        if not ok:
+            continue
+        C, B = ev[pc[0]][2][0], ev[pb[0]][2][0]
+        ctx.ob("C01.R8", site, "`continue` target %s is the block in which %s is generated (a continue re-tests the condition / runs the iteration expression, C11 6.8.6.2)" % (C, step), ev[si][1] == C, construct="continue-target", node=ev[si][3], detail="%s is generated in block %s" % (step, ev[si][1]))
+        T, Fl = ev[ci][2][1], ev[ci][2][2]
+        sets = idx["set"]
+        ctx.ob("C01.R8", site, "`break` target %s is the condition's false target and the block the code after the loop continues in" % B, Fl == B and bool(sets) and ev[sets[-1]][2][0] == B and sets[-1] > max(bi, ci, si), construct="break-target", node=ev[ci][3], detail="false target %s, last block %s" % (Fl, ev[sets[-1]][2][0] if sets else None))
+        ctx.ob("C01.R8", site, "the body is generated in the condition's true target %s" % T, ev[bi][1] == T and T in fresh and T not in (B,), construct="body-block", node=ev[bi][3], detail="body in %s" % ev[bi][1])
+        # what follows the body: a jump to the block of the next step, then that block is opened (or the step follows directly)
+        nxt = [i for i in range(bi + 1, len(ev)) if ev[i][0] in ("jump", "cond", "set", "expr")]
+        want = C
+        ok = bool(nxt) and ev[nxt[0]][0] == "jump" and ev[nxt[0]][2][0] == want
+        ctx.ob("C01.R8", site, "the end of the body falls through to the next step (jump to %s)" % want, ok, construct="body-falls-through", node=ev[nxt[0]][3] if nxt else fn, detail=str(ev[nxt[0]][:3]) if nxt else "")
+        # every set_block follows a terminator of the block before
+        for i in sets:
+            prev = ev[i - 1] if i else None
+            ok = prev is not None and prev[0] in ("jump", "cond")
+            ctx.ob("C01.R8", site, "block %s is opened right after the previous block was terminated" % ev[i][2][0], ok, construct="terminated-before:" + ev[i][2][0], node=ev[i][3], detail=str(prev[:3]) if prev else "")
+        # entry: the first jump goes to the block that runs first (condition for while/for, body for do-while)
+        first = T if q.endswith("do_while") else ev[ci][1]
+        j0 = idx["jump"][0] if idx["jump"] else None
+        ctx.ob("C01.R8", site, "the loop is entered at %s" % first, j0 is not None and ev[j0][2][0] == first and (not sets or j0 < sets[0]), construct="entry", detail=str(ev[j0][:3]) if j0 is not None else "")
+        if step == "stmt.post":
+            after = [i for i in range(si + 1, len(ev)) if ev[i][0] in ("jump", "cond", "set")]
+            ok = bool(after) and ev[after[0]][0] == "jump" and ev[after[0]][2][0] == ev[ci][1]
+            ctx.ob("C01.R8", site, "after the iteration expression the condition is tested again (jump to %s)" % ev[ci][1], ok, construct="step-to-condition")
+            guard = [a for a in _ancestors(ev[ci][3]) if isinstance(a, ast.If) and norm(a.test) == "stmt.condition"]
+            alt = [c for g in guard for st2 in g.orelse for c in ast.walk(st2) if isinstance(c, ast.Call) and norm(c.func) == "self.builder.emit_jump"]
+            ctx.ob("C01.R8", site, "a missing condition means true: the body is entered unconditionally", len(guard) == 1 and len(alt) == 1 and norm(alt[0].args[0]) == T, construct="no-condition-is-true")
+        elif q.endswith("gen_while"):
+            pass
+        ok = pc[0] < bi and pb[0] < bi and len(idx["pop-continue"]) == 1 and len(idx["pop-break"]) == 1 and idx["pop-continue"][0] > bi and idx["pop-break"][0] > bi
+        ctx.ob("C01.R8", site, "both targets are pushed before the body is generated and popped exactly once after it", ok, construct="push-pop")
+    for q, stack in (("CCodeGenerator.gen_continue", "self.continue_block_stack"), ("CCodeGenerator.gen_break", "self.break_block_stack")):
+        fn = ctx.fn(CG, q)
+        j = [c for c in ast.walk(fn) if isinstance(c, ast.Call) and norm(c.func) == "self.builder.emit_jump"]
+        env = {norm(n.targets[0]): norm(n.value) for n in ast.walk(fn) if isinstance(n, ast.Assign)}
+        ok = len(j) == 1 and env.get(norm(j[0].args[0]), norm(j[0].args[0])) == stack + "[-1]"
+        ctx.ob("C01.R8", CG + ":" + q, "jumps to the innermost target (%s[-1])" % stack, ok, construct="innermost", detail=str(env))
+    sw = ctx.fn(CG, "CCodeGenerator.gen_switch")
+    pushes = [norm(c.func) for c in ast.walk(sw) if isinstance(c, ast.Call) and norm(c.func).endswith("_block_stack.append")]
+    pops = [norm(c.func) for c in ast.walk(sw) if isinstance(c, ast.Call) and norm(c.func).endswith("_block_stack.pop")]
+    ctx.ob("C01.R8", CG + ":CCodeGenerator.gen_switch", "a switch is a break target but not a continue target (continue inside a switch belongs to the enclosing loop)", pushes == ["self.break_block_stack.append"] and pops == ["self.break_block_stack.pop"], construct="switch-break-only", detail="%s / %s" % (pushes, pops))
 
 
 def _ancestors(n):
